@@ -452,7 +452,7 @@ def prop2(case):
     if raised is not None:
         raise Violation("raised", "%s\nraised %s: %s" % (ctx, type(raised).__name__, str(raised)[:300]),
                         "%s/gfa2" % type(raised).__name__)
-    after_text = str(g)
+    after_text = "\n".join(x for x in str(g).split("\n") if not x.startswith("?record_type?"))  # (placeholders of pending identifiers)
     ctx += "\n-- after --\n" + after_text
     probs = O.invariants(g)
     if probs:
